@@ -17,7 +17,7 @@ UNPACK = 'Avtp_Vss_DeserializeStringArray'
 def lists(tier):
     import itertools
     ls = [[], [2, 0, 7, 1]]
-    alphabet = [0, 1, 5] if tier != 'thorough' else [0, 1, 2, 3, 255, 256]
+    alphabet = [0, 1, 5, 130, 255] if tier != 'thorough' else [0, 1, 2, 3, 127, 128, 255, 256, 300]
     for n in (1, 2, 3):
         for combo in itertools.product(alphabet, repeat=n):
             ls.append(list(combo))
@@ -128,7 +128,9 @@ def _count(lens):
         return [('undecided', key, '%s [%s]: counting forks into %d worlds' % (where, desc, len(oks)))], 0
     w = oks[0]
     out = []
-    if w.ret != n:
+    if not isinstance(w.ret, int):
+        out.append(('undecided', key, '%s [%s]: symbolic count' % (where, desc)))
+    elif w.ret != n:
         if isinstance(w.ret, int) and w.ret == n % (1 << R) and n >= (1 << R):
             out.append(('violation', 'count:return-narrow', '%s: returns %d for an array holding %d strings: the %d-bit return type cannot express the count'
                         % (where, w.ret, n, R)))
@@ -253,7 +255,7 @@ def run(ctx, tier, res, tag=''):
                 res.undec(text)
     res.sample({'list_lengths': [1, 5, 0], 'packed_octets': 12, 'pack': 'BE16 length + bytes per string, total recorded',
                 'count': 3, 'unpack_requested': [2, 3, 5], 'verdict': 'lengths and bytes equal; nothing read beyond octet 12'})
-    res.rule = ('per list shape (every list of 1..3 strings with lengths from {0,1,5} [thorough {0,1,2,3,255,256}], [], [2,0,7,1], 256 empty and 300 mixed strings; thorough adds 1000/2000 strings, 65533 and 32767+32764 octets): '
+    res.rule = ('per list shape (every list of 1..3 strings with lengths from {0,1,5,130,255} [thorough {0,1,2,3,127,128,255,256,300}], [], [2,0,7,1], 256 empty and 300 mixed strings; thorough adds 1000/2000 strings, 65533 and 32767+32764 octets): '
                 'pack, count and unpack interpreted on exact-extent regions with symbolic string bytes; unpack with requested count '
                 'k-1, k, k+2 and with/without destinations; results must equal the reference packing and no access may leave the '
                 'recorded length or the destinations')
